@@ -1,8 +1,10 @@
 // C11 — results depend only on explicit arguments: no aliasing, stale state or
 // races. Orchestrator of the three engines built by prebuild.sh:
-//   c11hist        histories with a value model (histsim)
-//   c11sched       seeded schedules on instrumented sources, equivalence oracle
-//   c11sched_race  the same schedules in a -race build, ThreadSanitizer oracle
+//
+//	c11hist        histories with a value model (histsim)
+//	c11sched       seeded schedules on instrumented sources, equivalence oracle
+//	c11sched_race  the same schedules in a -race build, ThreadSanitizer oracle
+//
 // Their evidence is merged into evidence/C11.json.
 package main
 
